@@ -81,6 +81,16 @@ M=[
   """            auto cend() const { return const_iterator(items_.size(), ids_, items_); }""","""            auto cend() const { return const_iterator(items_.size() - (ids_.size() > items_.size() ? 1 : 0), ids_, items_); }"""),
  ('R9 (indirect) Factored::match(pf, pf) never looks at the last key of the longer list', 'src/Factored/Utils/Core.cpp',
   """        while (j < smallerK->size() && i < biggerK->size()) {""","""        while (j < smallerK->size() && i + 1 < biggerK->size()) {"""),
+ ('R10 (indirect) Factored::merge(pf, pf) does not step over a shared key of the left operand when it is its last one', 'src/Factored/Utils/Core.cpp',
+  """                if (lhs.first[i] == rhs.first[j]) ++i;
+                ++j;
+            }
+        }
+        retval.first.insert(std::end(retval.first),   std::begin(lhs.first) + i, std::end(lhs.first));""","""                if (lhs.first[i] == rhs.first[j] && i + 1 < lhs.first.size()) ++i;
+                ++j;
+            }
+        }
+        retval.first.insert(std::end(retval.first),   std::begin(lhs.first) + i, std::end(lhs.first));"""),
 ]
 unit = '--unit' in sys.argv
 sel = [a for a in sys.argv[1:] if a != '--unit']
